@@ -118,7 +118,7 @@ pub fn cases(ctx: &Ctx) -> Vec<Case> {
             }
         }
         // interleaved files and compression
-        let n = if ctx.quick() { 60 } else { 600 };
+        let n = if ctx.quick() { 60 } else { 3000 };
         let mut sizes = gen::small_sizes();
         sizes.extend([Sz::new(0, 1, -17), Sz::new(0, 1, 0), Sz::new(0, 2, 3), Sz::new(0, 3, -17), Sz::new(1, 0, 5)]);
         for i in 0..n {
@@ -143,7 +143,7 @@ pub fn cases(ctx: &Ctx) -> Vec<Case> {
         }
         // interleaved, unaligned
         let sizes = gen::chunk_sizes();
-        let n = if ctx.quick() { 6 } else { 60 };
+        let n = if ctx.quick() { 6 } else { 240 };
         for _ in 0..n {
             let p = random_program(&mut rng, 1, 1, 2, 3, &sizes, false);
             let nch = est_chunks(&p);
